@@ -126,6 +126,7 @@ _OB_ALL.update({
 })
 OBLIGATIONS = {"all": dict(_OB_ALL, **{"depth/4": "a defined depth-3 bracketing carrying one more unary operator",
                                        "long_track": "a function evaluated on a track of 13, 17 or 40 observations",
+                                       "named_numbers": "an expression with named numbers (operate(text, {name: value})) evaluated several times with different values",
                                        "rot/nan-first": "an order-free aggregate over values whose first one is NaN, compared with its rotations"}),
                "quick": {}, "thorough": {}}
 
@@ -1144,6 +1145,62 @@ def check_long(variant, fn, pattern, n, ctx):
     ctx.outcome(("long", fn, pattern, n))
 
 
+# ---- named numbers: track.operate("a*k+1", {"k": 2.5}) (the documented way to hand a Python value to an expression) -------
+EXT_TEMPLATES = {
+    "a*k+1": (None, ["k"], lambda a, e: a * e["k"] + 1),
+    "b=a/k": ("b", ["k"], lambda a, e: a / e["k"]),
+    "p*a-q": (None, ["p", "q"], lambda a, e: e["p"] * a - e["q"]),
+    "k-a": (None, ["k"], lambda a, e: e["k"] - a),
+}
+EXT_VALUES = [2.0, 3.0, -0.5, 10.0]
+
+
+def check_externals(variant, text, seq, fresh, ctx):
+    """The same expression text evaluated once per entry of `seq` (each a list of values for its named numbers), on one
+    track or on a fresh track every time: every evaluation must use the values it was given."""
+    case = {"kind": "ext", "variant": variant, "text": text, "seq": [list(v) for v in seq], "fresh": bool(fresh)}
+    lhs, names, fn = EXT_TEMPLATES[text]
+    vec = [alpha.const(variant, v) for v in (1.0, -2.0, 4.0, 0.5)]
+    t = _rot_track(variant, vec)
+    ctx.case(len(seq) >= 2)
+    ctx.oblige("named_numbers")
+    for step_no, vals in enumerate(seq):
+        if fresh:
+            t = _rot_track(variant, vec)
+        ext = dict(zip(names, vals))
+        exp = [fn(a, ext) for a in vec]
+        st, got = guard(t.operate, text, dict(ext))
+        if st != "ok":
+            ctx.violation("named-number/%s" % ("does-not-return" if st == "hang" else "raises"), case, got)
+            return
+        if lhs is not None:
+            st, got = guard(t.getAnalyticalFeature, lhs)
+        res = _vec(got, len(vec)) if st == "ok" else None
+        if res is None or not vclose(res, exp):
+            ctx.violation("named-number/%s/values-differ" % ("first-evaluation" if step_no == 0 else "later-evaluation-of-the-same-text"),
+                          case, {"evaluation": step_no, "named_numbers": ext, "expected": exp, "got": res if res is not None else repr(got)[:80]})
+            return
+        if lhs is None and t.getListAnalyticalFeatures() != ["a"]:
+            ctx.violation("named-number/track-modified", case, {"listed": t.getListAnalyticalFeatures()})
+            return
+    ctx.outcome(("ext", text, len(seq), fresh))
+
+
+def run_externals(variant, ctx):
+    for text, (lhs, names, fn) in EXT_TEMPLATES.items():
+        tuples = list(itertools.product(EXT_VALUES, repeat=len(names)))
+        if len(names) == 2:
+            tuples = [v for v in tuples if v[0] != v[1]]
+        for fresh in (False, True):
+            for a in tuples:
+                check_externals(variant, text, [a], fresh, ctx)
+                for b in tuples:
+                    if b != a:
+                        check_externals(variant, text, [a, b], fresh, ctx)
+            check_externals(variant, text, tuples[:4], fresh, ctx)
+    ctx.sample({"named_numbers": list(EXT_TEMPLATES), "values": EXT_VALUES, "sequences": "every single value, every ordered pair, one run of four"})
+
+
 def defined_size(bench, variant, tree):
     for n in reversed(SIZES):
         try:
@@ -1159,6 +1216,8 @@ def replay(case, ctx):
         return check_rotation(case["variant"], case["fn"], case["vec"], ctx)
     if case.get("kind") == "long":
         return check_long(case["variant"], case["fn"], case["pattern"], case["N"], ctx)
+    if case.get("kind") == "ext":
+        return check_externals(case["variant"], case["text"], case["seq"], case["fresh"], ctx)
     if case["kind"] == "setup":
         st, err = guard(Bench().get, case["variant"], case["N"])
         if st != "ok":
@@ -1274,6 +1333,7 @@ def _quick_shards(variant, with_d2=True):
     for fn in ROT_AGG:
         sh.append({"kind": "rot", "variant": variant, "N": 4, "fn": fn})
     sh.append({"kind": "long", "variant": variant, "N": 4})
+    sh.append({"kind": "ext", "variant": variant, "N": 4})
     if with_d2:
         sh += _d2_shards("quick", variant)
     for k in range(4):
@@ -1335,6 +1395,8 @@ def run_shard(shard, ctx):
     if st != "ok":
         ctx.violation("setup/cannot-build-the-track", {"kind": "setup", "variant": v, "N": n}, err)
         return
+    if kind_ == "ext":
+        return run_externals(shard["variant"], ctx)
     if kind_ == "long":
         for fn in UN_ALL:
             for pattern in sorted(LONG_PATTERNS):
